@@ -156,7 +156,7 @@ pub enum Obs {
 	Reconnected { a: usize, b: usize },
 	/// Node restarted from (manager bytes, chosen monitor snapshots). `chosen` = (channel, latest update id
 	/// of the monitor snapshot loaded); `lost_delivery` = the message being handled when the crash hit.
-	Restarted { node: usize, chosen: Vec<(ChannelId, u64)>, lost_delivery: Option<(usize, Wire)>, mgr_known_ids: Vec<(ChannelId, u64)>, mgr_known_open: Vec<ChannelId>, mgr_pending: Vec<lightning::types::payment::PaymentHash> },
+	Restarted { node: usize, chosen: Vec<(ChannelId, u64)>, lost_delivery: Option<(usize, Wire)>, lost_earlier: Vec<(usize, Wire)>, mgr_known_ids: Vec<(ChannelId, u64)>, mgr_known_open: Vec<ChannelId>, mgr_pending: Vec<lightning::types::payment::PaymentHash> },
 	Completed { node: usize, chan: ChannelId, id: u64 },
 	/// An `ErrorAction` other than a wire message (ignore/log).
 	ErrorAction { from: usize, to: usize, what: String },
@@ -230,6 +230,8 @@ pub struct World {
 	pub mgr_known_pending: Vec<Vec<lightning::types::payment::PaymentHash>>,
 	/// per node: channels that were open in the manager when it was last written
 	pub mgr_known_open: Vec<Vec<ChannelId>>,
+	/// deferred-mode nodes: messages handled since the manager was last written (what a crash now would forget)
+	pub unsaved: Vec<Vec<(usize, Wire)>>,
 }
 
 /// Chain notification styles permitted by the `Listen` and `Confirm` contracts (C11).
@@ -279,11 +281,17 @@ pub fn init_msg(features: lightning::types::features::InitFeatures) -> Init {
 
 impl World {
 	pub fn new(cfgs: Vec<UserConfig>, feerate: u32) -> World {
+		Self::new_deferred(cfgs, feerate, &[])
+	}
+
+	/// Like `new`; the nodes listed in `deferred` run their ChainMonitor in deferred mode (monitor operations are
+	/// queued and only executed by `flush`, which the node's background task calls after writing the manager).
+	pub fn new_deferred(cfgs: Vec<UserConfig>, feerate: u32, deferred: &[usize]) -> World {
 		crate::base::install_signer_factory();
 		let _ = siglog_take();
 		let n = cfgs.len();
 		let nodes: Vec<McNode> =
-			cfgs.into_iter().enumerate().map(|(i, c)| McNode::new(b'A' + i as u8, c, feerate, false)).collect();
+			cfgs.into_iter().enumerate().map(|(i, c)| McNode::new(b'A' + i as u8, c, feerate, deferred.contains(&i))).collect();
 		let chain = ChainSim::new();
 		let g = chain.tip_hash();
 		World {
@@ -316,6 +324,7 @@ impl World {
 			mgr_known_ids: vec![BTreeMap::new(); n],
 			mgr_known_pending: vec![Vec::new(); n],
 			mgr_known_open: vec![Vec::new(); n],
+			unsaved: vec![Vec::new(); n],
 		}
 	}
 
@@ -346,7 +355,35 @@ impl World {
 		self.links.remove(&(a, b));
 		self.links.remove(&(b, a));
 		self.obs.push(Obs::Disconnected { a, b });
+		self.trim_unsaved(a, b);
+		self.trim_unsaved(b, a);
 		self.pump();
+	}
+
+	/// BOLT-2: on disconnection a node forgets the peer's updates not yet covered by a commitment_signed - they
+	/// are then no longer "handled but unsaved" either
+	fn trim_unsaved(&mut self, node: usize, peer: usize) {
+		let list = &mut self.unsaved[node];
+		let mut done: Vec<ChannelId> = Vec::new();
+		let mut i = list.len();
+		while i > 0 {
+			i -= 1;
+			if list[i].0 != peer {
+				continue;
+			}
+			let cid = match list[i].1.channel_id() {
+				Some(c) => c,
+				None => continue,
+			};
+			if done.contains(&cid) {
+				continue;
+			}
+			if matches!(list[i].1, Wire::Add(_) | Wire::Fulfill(_) | Wire::Fail(_) | Wire::FailMalformed(_) | Wire::Fee(_)) {
+				list.remove(i);
+			} else if matches!(list[i].1, Wire::Commit(_) | Wire::Raa(_)) {
+				done.push(cid);
+			}
+		}
 	}
 
 	fn push_wire(&mut self, from: usize, to_id: &PublicKey, w: Wire) {
@@ -363,6 +400,35 @@ impl World {
 	/// bundles into individual messages in PeerManager order), collects signer / persist /
 	/// broadcast observations and applies the manager persistence policy.
 	pub fn pump(&mut self) {
+		// a deferred ChainMonitor's flush may release messages and need further manager writes
+		let mut rounds = 0;
+		while self.pump_once() {
+			rounds += 1;
+			assert!(rounds < 50, "harness: deferred flush does not settle");
+		}
+	}
+
+	/// What the node's background task does when the manager needs persisting (lightning-background-processor):
+	/// note how many monitor operations are queued, write the manager, then flush exactly that many.
+	/// Returns true if monitor operations were flushed.
+	pub fn background_persist(&mut self, i: usize) -> bool {
+		let count = if self.nodes[i].deferred { self.nodes[i].mon.pending_operation_count() } else { 0 };
+		self.nodes[i].write_manager();
+		self.note_manager_written(i);
+		if count > 0 {
+			crate::runner::witness("deferred-flush");
+			if count > 1 {
+				crate::runner::witness("deferred-flush-of-several-operations");
+			}
+			let lg = self.nodes[i].logger.clone();
+			self.nodes[i].mon.flush(count, &lg);
+			true
+		} else {
+			false
+		}
+	}
+
+	fn pump_once(&mut self) -> bool {
 		let mut msgs: Vec<(usize, MessageSendEvent)> = Vec::new();
 		for i in 0..self.nodes.len() {
 			for e in self.nodes[i].cm.get_and_clear_pending_msg_events() {
@@ -398,16 +464,20 @@ impl World {
 		for (i, e) in msgs {
 			self.route_msg_event(i, e);
 		}
+		let mut flushed = false;
 		for i in 0..self.nodes.len() {
 			if self.nodes[i].cm.get_and_clear_needs_persistence() {
 				if self.eager_manager_persist && !self.manager_write_held[i] {
-					self.nodes[i].write_manager();
-					self.note_manager_written(i);
+					flushed |= self.background_persist(i);
 				} else {
 					self.manager_dirty[i] = true;
+					if self.nodes[i].deferred && self.nodes[i].mon.pending_operation_count() > 0 {
+						crate::runner::witness("deferred-operations-queued-while-background-task-stalled");
+					}
 				}
 			}
 		}
+		flushed
 	}
 
 	fn route_msg_event(&mut self, from: usize, e: MessageSendEvent) {
@@ -520,6 +590,9 @@ impl World {
 		}
 		let fid = self.nodes[from].id;
 		self.obs.push(Obs::Delivered { from, to, wire: w.clone() });
+		if self.nodes[to].deferred {
+			self.unsaved[to].push((from, w.clone()));
+		}
 		{
 			let cm = &self.nodes[to].cm;
 			match &w {
@@ -1336,6 +1409,14 @@ impl World {
 	pub fn note_manager_written(&mut self, i: usize) {
 		use lightning::ln::channelmanager::RecentPaymentDetails;
 		self.mgr_known_ids[i] = self.live_ids[i].clone();
+		self.unsaved[i].clear();
+		if self.nodes[i].deferred {
+			// the manager also knows the operations its ChainMonitor has queued but not yet flushed
+			for (cid, id) in self.nodes[i].mon.verif_pending_ops() {
+				let e = self.mgr_known_ids[i].entry(cid).or_insert(0);
+				*e = (*e).max(id);
+			}
+		}
 		self.mgr_known_open[i] = self.nodes[i].cm.list_channels().iter().map(|c| c.channel_id).collect();
 		self.mgr_known_pending[i] = self.nodes[i]
 			.cm
@@ -1357,10 +1438,20 @@ impl World {
 			self.obs.push(Obs::Persist { node: n, rec });
 		}
 		let _ = siglog_take();
+		let mut lost_earlier = std::mem::take(&mut self.unsaved[n]);
+		if let (Some((f, w)), Some((lf, lw))) = (lost_delivery.as_ref(), lost_earlier.last()) {
+			if f == lf && w.kind() == lw.kind() {
+				lost_earlier.pop();
+			}
+		}
+		if !lost_earlier.is_empty() {
+			crate::runner::witness("restart-forgets-messages-handled-since-the-last-manager-write");
+		}
 		self.obs.push(Obs::Restarted {
 			node: n,
 			chosen: chosen.iter().map(|(c, s)| (*c, s.monitor_update_id)).collect(),
 			lost_delivery,
+			lost_earlier,
 			mgr_known_ids: self.mgr_known_ids[n].iter().map(|(c, i)| (*c, *i)).collect(),
 			mgr_known_open: self.mgr_known_open[n].clone(),
 			mgr_pending: self.mgr_known_pending[n].clone(),
@@ -1370,6 +1461,7 @@ impl World {
 			if o != n && self.is_connected(n, o) {
 				let nid = self.nodes[n].id;
 				self.nodes[o].cm.peer_disconnected(nid);
+				self.trim_unsaved(o, n);
 				self.connected.insert((n.min(o), n.max(o)), false);
 				self.links.remove(&(n, o));
 				self.links.remove(&(o, n));
